@@ -277,6 +277,18 @@ Example C13_cross_nonvacuous :
 Proof. exact cross_nonvacuous. Qed.
 Print Assumptions C13_cross_nonvacuous.
 
+(* Several libraries merged under ONE prefix ("x:score_1.1.0,testlib_2.0.0"): in the loader model the merged schema
+   is the same as the one merged without a prefix, except for its namespace -- same tag table, same recorded
+   duplicates, for every folder of schema files and every version list.  (The unit sections, which the merge
+   re-finalises, are not modelled: values with units are covered by the implementation-side oracle only.) *)
+Theorem C13_merged_under_prefix_same_schema :
+  forall (isa : N -> bool) (fixed : bool) (rp : repo) (v0 : str) (vs : list str) (ns : str) (L : lschema),
+  lbind (load_sub isa fixed rp v0 ns None) (load_rest isa fixed rp vs ns) = LOk L ->
+  exists L', lbind (load_sub isa fixed rp v0 [] None) (load_rest isa fixed rp vs []) = LOk L' /\
+             same_but_ns L L' /\ l_table L' = l_table L.
+Proof. exact merged_under_prefix_same_schema. Qed.
+Print Assumptions C13_merged_under_prefix_same_schema.
+
 (* ====================================================================== PART 2: record of the repaired defects
    (fixed = false: the code before the fix: commits for C13-F2, C13-F3, C13-F4) *)
 
